@@ -40,6 +40,11 @@ CHECKS = {
    text="TLC shows on the specification that every byte shape it decodes re-encodes identically (8 MTypes x MACPayload length 0..40 x FOptsLen nibble x FPort byte x rejoin type); every shape plus seeded uniform strings and structure-aware mutations of valid frames go through UnmarshalBinary -> MarshalBinary -> UnmarshalBinary on the real code and TLC validates: accepted and MHDR-RFU-zero => re-encoding succeeds and is byte-identical, and decodes again to an equal frame.",
    note="Trusted: TLC, Frame.tla, projection. Coverage-guided fuzzing is not used (DESIGN sec. 4).",
    ref="3/C08"),
+ "C11": dict(
+   technique="NetID/DevAddr addressing rules on bit sequences in TLA+ (NetID.tla); algebraic identities model-checked by TLC; recorded SetAddrPrefix/IsNetID/NwkID/NetIDType/ID results and identifier representations validated by TLC (all 2^24 NetIDs in the thorough tier)",
+   text="TLC checks the identities IsNetID(SetPrefix(a,n),n), IsNetID(a,n) <=> SetPrefix(a,n)=a, NwkAddr untouched, type and NwkID preserved, idempotence on the specification for all 8 types x an ID lattice x 4 address patterns; the real SetAddrPrefix, IsNetID (on the input, the result and a one-bit neighbour), NwkID, NetIDType, NetID.Type/ID are recorded for structured+random NetIDs (quick) or all 2^24 NetIDs (thorough) and compared bit for bit with the specification; text/binary/sql representations of EUI64, DevAddr, NetID, AES128Key are checked incl. 0x prefix, upper case and nine kinds of malformed/wrong-length input.",
+   note="Trusted: TLC, NetID.tla, Text.tla (hex), projection.",
+   ref="3/C11"),
  "C12": dict(
    technique="Regional Parameters rules as TLA+ tables/functions (RegionalParameters.tla), sanity-checked by TLC; every band configuration's tables and accessor results recorded through a read-only hook and validated by TLC (fully enumerated)",
    text="All 24 band names x repeater x dwell-time are instantiated; for each, the hook snapshot (data-rate flags, RX1 table, channels) and the results of GetRX1DataRateIndex for DR -2..16 x offset -2..9, GetRX1ChannelIndex/Frequency for every uplink channel, channel accessors for index -2..n+1 are recorded in one event and TLC checks them against the region's rule (same channel / mod 8 / mod 48, max(DR-offset,floor) or the US915/AU915 tables, AS923/IN865 effective offsets), closedness over downlink data-rates, monotone step<=1, errors for invalid/negative arguments; ping-slot frequencies for seeded DevAddr/beacon times against the fixed/hopping rule.",
